@@ -3195,7 +3195,13 @@ define_array_type(InterrogateType &itype, CPPArrayType *cpptype) {
     // This indicates an unsized array.
     itype._array_size = -1;
   } else {
-    itype._array_size = cpptype->_bounds->evaluate().as_integer();
+    CPPExpression::Result result = cpptype->_bounds->evaluate();
+    if (result._type == CPPExpression::RT_error) {
+      // We can't evaluate the bounds expression; record the size as unknown.
+      itype._array_size = -1;
+    } else {
+      itype._array_size = result.as_integer();
+    }
   }
 }
 
